@@ -44,8 +44,9 @@ def gwEv : Ev → String
   | .arrive (some h) => s!"A{h},"
   | .arrive none => "A-,"
   | .dispatch _ h p => s!"D{h}.{p},"
-  | .fin s st started trunc =>
-    s!"{s}=fin{st}" ++ (if started then "s" else "") ++ (if trunc then "t" else "") ++ ","
+  | .fin s st started trunc hostless =>
+    s!"{s}=fin{st}" ++ (if started then "s" else "") ++ (if trunc then "t" else "") ++
+      (if hostless then "h" else "") ++ ","
   | .wait s => s!"{s}=wait,"
   | .err s => s!"{s}=err,"
   | .fdev m => s!"E{m},"
